@@ -101,6 +101,9 @@ impl ModelStore {
     fn gate(&self) -> Result<Gate, StoreError> {
         let mut g = self.inner.lock();
         if g.live_epoch != self.epoch {
+            if std::env::var("VP_DEBUG").is_ok() {
+                eprintln!("DEBUG fenced write on a stale storage handle (epoch {})", self.epoch);
+            }
             return Err(StoreError::Fenced);
         }
         let idx = g.mutating_calls;
@@ -118,6 +121,9 @@ impl ModelStore {
 
     fn check_read(&self) -> Result<(), StoreError> {
         if self.inner.lock().live_epoch != self.epoch {
+            if std::env::var("VP_DEBUG").is_ok() {
+                eprintln!("DEBUG fenced read on a stale storage handle (epoch {})", self.epoch);
+            }
             return Err(StoreError::Fenced);
         }
         Ok(())
